@@ -47,6 +47,7 @@ def s_oracle(case, h):
             tbl = h["agg"][f"{e}|{agg}"]
             want = {}
             wantrep = {}
+            want2p, outstanding = {}, set()
             lost = []
             for r in recs:
                 k = keys_of(r["geographic_unit_fips"], r["postal_code"])
@@ -60,7 +61,14 @@ def s_oracle(case, h):
                     continue
                 want[key] = want.get(key, 0) + aggfam.whole(r[f"results_{e}"])
                 wantrep[key] = wantrep.get(key, 0) + (1 if expected and int(r["reporting"]) == 1 else 0)
+                f_ = feed.get(r["geographic_unit_fips"])
+                if e == "margin":
+                    two = 0 if f_ is None else (f_.get("results_dem") or 0) + (f_.get("results_gop") or 0)
+                    want2p[key] = want2p.get(key, 0) + two
+                    if expected and int(r["reporting"]) == 0:
+                        outstanding.add(key)
             got = {}
+            got2p = {}
             for rec in tbl["rows"]:
                 key = tuple(rec[c] for c in cols)
                 if key in got:
@@ -69,6 +77,7 @@ def s_oracle(case, h):
                 if e == "margin":
                     val = val * rec["pred_turnout"]
                 got[key] = (val, rec["reporting"])
+                got2p[key] = rec.get("pred_turnout")
             if lost:
                 fails.append({"what": f"{agg} table for {e}: votes of {lost[:3]} are in no group (key column missing)", "kind": "votes-lost-nan-key",
                               "agg": agg, "unexpected_only": all(u not in {b['geographic_unit_fips'] for b in case['baseline']} for u in lost),
@@ -77,6 +86,15 @@ def s_oracle(case, h):
                 fails.append({"what": f"{agg} table for {e}: groups differ: missing {sorted(set(want) - set(got))[:3]} extra {sorted(set(got) - set(want))[:3]}",
                               "kind": "group-set", "agg": agg})
                 continue
+            if e == "margin":
+                # the divisor is the two-party turnout: in a group without outstanding units it is exactly the dem + gop votes counted there
+                for key in want:
+                    if key in outstanding or got2p.get(key) is None:
+                        continue
+                    if abs(got2p[key] - want2p[key]) > 1e-6 * max(1, abs(want2p[key])):
+                        fails.append({"what": f"{agg} table for margin: group {key} has no outstanding unit, its two-party turnout is {got2p[key]} but the feed counts "
+                                              f"{want2p[key]} dem + gop votes there (counted margin {want[key]} is divided by the wrong turnout)", "kind": "two-party-turnout", "agg": agg})
+                        break
             for key in want:
                 v, rep = got[key]
                 if abs(v - want[key]) > 1e-6 * max(1, abs(want[key])) or int(rep) != wantrep[key]:
